@@ -356,6 +356,39 @@ Definition pf_last_compose (c : vcase) : bool :=
   | Ok bs, Ok lrs => negb (last_compose_ok (c_ss c) lrs (c_lang c) bs)
   | _, _ => false
   end.
+(* rule files at both levels: the language's own rules judged against the builders as they are AFTER the
+   common level (that intermediate state is computed by the model): the contract of a single language-level
+   rule, and the frame of the language-level rules *)
+Definition without_common (lrs : list language_rules) : list language_rules :=
+  map (fun lr => if seqb (lr_language lr) all_languages then mkLR (lr_language lr) [] [] else lr) lrs.
+Definition has_common (lrs : list language_rules) : bool :=
+  match builder_rules_for all_languages lrs, option_rules_for all_languages lrs with [], [] => false | _, _ => true end.
+Definition after_common (c : vcase) : option (list language_rules * list builder) :=
+  if negb (seqb (c_lang c) all_languages) && aliases_acyclic (c_ss c) then
+    match rewriter_from (c_files c) with
+    | Ok lrs => if has_common lrs then
+                  match apply_language (c_ss c) lrs all_languages (c_before c) with Ok mid => Some (without_common lrs, mid) | _ => None end
+                else None
+    | _ => None
+    end
+  else None.
+Definition pf_language_contract (c : vcase) : bool :=
+  in_claim c &&
+  match c_after c, after_common c with
+  | Ok bs, Some (lrs2, mid) =>
+      negb (match single_rule lrs2 (c_lang c) with
+            | Some (inl r) => builder_contract (c_ss c) r mid bs
+            | Some (inr r) => option_contract (or_action r) (or_sel r) mid bs
+            | None => true
+            end)
+  | _, _ => false
+  end.
+Definition pf_language_frame (c : vcase) : bool :=
+  in_claim c &&
+  match c_after c, after_common c with
+  | Ok bs, Some (lrs2, mid) => negb (frame_ok (c_ss c) lrs2 (c_lang c) mid bs)
+  | _, _ => false
+  end.
 Definition ven_in_claim (c : vcase) : bool := in_claim c.
 Definition ven_single (c : vcase) : bool :=
   match rewriter_from (c_files c) with Ok lrs => match single_rule lrs (c_lang c) with Some _ => true | None => false end | _ => false end.
@@ -497,6 +530,9 @@ Definition ven_code (c : vcase) : nat :=
   bit (ven_selects c && existsb (fun b => Nat.leb 2 (List.length (b_options b))) (c_before c)) 128 +
   bit (match rewriter_from (c_files c) with Ok _ => true | _ => false end) 256 +
   bit (pf_last_duplicate c) 1024 + bit (pf_last_compose c) 2048.
+(* second number: 1 contract of the single language-level rule, 2 frame of the language-level rules, both
+   against the state after the common level *)
+Definition ven_code2 (c : vcase) : nat := bit (pf_language_contract c) 1 + bit (pf_language_frame c) 2.
 Definition ven_codes (cs : list vcase) : list nat := map ven_code cs.
 
 (* ---------------------------------------------------------------- the rule registries the model and the harness know
@@ -531,3 +567,82 @@ Definition merge_target_checked (ss : schemas) (cur : list builder) (dest : buil
 Definition merged_option (root : path) (ren : list (string * string)) (o : boption) : boption :=
   mkOption (match alist_find ren (op_name o) with Some n => n | None => op_name o end)
            (op_comments o) (op_args o) (map (prefix_path root) (op_assignments o)) (op_default o).
+
+(* ---------------------------------------------------------------- what each rule does not check: the exact conditions
+   under which it keeps builders well-typed (the open findings are the cases where they fail) *)
+(* promote_options_to_constructor copies Args[0] and Assignments[0] only: the assignment must use no other argument *)
+Definition promote_checked (b : builder) (names : list string) : bool :=
+  forallb (fun n => match option_by_name b n with
+                    | Some o => match op_args o, op_assignments o with
+                                | a :: _, asg :: _ => forallb (arg_declared [a]) (assignment_args asg)
+                                | _, _ => true
+                                end
+                    | None => true
+                    end) names.
+(* struct_fields_as_options / _as_arguments append the fields of the ARGUMENT's struct to the path of the first
+   assignment: that path must end in that very struct (not in an array of it), use no index argument, and the
+   struct's field names must be distinct *)
+Definition sfa_checked (ss : schemas) (o : boption) : Prop :=
+  forall a0 rest sa dh fs first others it,
+    op_args o = a0 :: rest -> first_arg_struct ss (a_type a0) = TStruct sa dh fs ->
+    op_assignments o = first :: others -> last_item (as_path first) = Some it ->
+    resolve_total ss (next_type it) = TStruct sa dh fs /\ is_array (pi_type it) = false /\
+    path_args (as_path first) = [] /\ (forall f, In f fs -> field_by_name fs (f_name f) = Some f) /\
+    (* struct_fields_as_arguments keeps the other arguments and assignments: they must not use the first argument *)
+    (rest <> [] -> forall a', In a' others -> forallb (arg_declared rest) (assignment_args a') = true).
+
+(* per action, on one selected option: the action leaves it alone, or the option has what the action assumes *)
+Definition action_cond (ss : schemas) (act : oaction) (b : builder) (o : boption) : Prop :=
+  match act with
+  | AOmit | ARename _ | AAddComments _ | ADuplicate _ => True
+  | AAddAssignment va => vvalue_args (va_value va) = []
+  | AArrayToAppend | AMapToIndex | ARenameArguments _ =>
+      run_action ss act b o = Ok [o] \/ exists a first, derived_shape o a first /\ as_constraints first = []
+  | AUnfoldBoolean _ _ => run_action ss act b o = Ok [o] \/ exists a first, derived_shape o a first
+  | ADisjunctionAsOptions idx =>
+      run_action ss act b o = Ok [o] \/ (idx = 0%Z /\ exists a first da d, derived_shape o a first /\ a_type a = TDisj da d)
+  | AStructFieldsAsOptions _ | AStructFieldsAsArguments _ => run_action ss act b o = Ok [o] \/ sfa_checked ss o
+  end.
+Definition orule_cond (ss : schemas) (r : orule) (bs : list builder) : Prop :=
+  forall b o, In b bs -> In o (b_options b) -> sel_option (or_sel r) b o = true -> action_cond ss (or_action r) b o.
+
+(* compose merges every mapped composable builder under a path of the composed builder and hints the
+   composable's type on the path's last item: that item must be an `any` (the only place a TypeHint may sit),
+   the composable must build a struct object directly, and its constructor constants must use no argument.
+   (The `__schema_entrypoint` variants are left outside this condition.) *)
+Definition compose_checked (ss : schemas) (c : ycompose) (all : list builder) : Prop :=
+  match alist_find (yc_map c) "__schema_entrypoint" with Some ep => ep = "" | None => True end /\
+  forall nb cb under root it,
+    In cb all -> alist_find (yc_map c) (o_name (b_for cb)) = Some under -> make_path all nb under = Ok root -> last_item root = Some it ->
+    is_any (pi_type it) = true /\ is_ref (o_type (b_for cb)) = false /\
+    forall a, In a (ct_assignments (b_ctor cb)) -> dyn_is_nil (as_const a) = false -> assignment_args a = [].
+
+Definition brule_cond (ss : schemas) (r : brule) (bs : list builder) : Prop :=
+  match r with
+  | BROmit _ | BRRename _ _ | BRProperties _ _ | BRDuplicate _ _ _ | BRInitialize _ _ | BRAddFactory _ _ => True
+  | BRAddOption _ o => voption_wf o = true
+  | BRMergeInto s src under _ _ =>
+      forall cur dest, consistent_with ss cur -> Forall (fun b => WT ss b = true) cur -> In dest cur -> sel_builder ss s dest = true ->
+                       merge_target_checked ss cur dest src under
+  | BRPromote s names => forall b, In b bs -> sel_builder ss s b = true -> promote_checked b names = true
+  | BRCompose _ c => compose_checked ss c bs
+  end.
+
+(* a run in which every rule is applied where its condition holds (the conditions are evaluated on the
+   builders as they are when the rule is applied) *)
+Fixpoint builder_rules_checked (ss : schemas) (rs : list brule) (bs : list builder) : Prop :=
+  match rs with
+  | [] => True
+  | r :: rest => brule_cond ss r bs /\ forall bs', apply_builder_rule ss r bs = Ok bs' -> builder_rules_checked ss rest bs'
+  end.
+Fixpoint option_rules_checked (ss : schemas) (rs : list orule) (bs : list builder) : Prop :=
+  match rs with
+  | [] => True
+  | r :: rest => orule_cond ss r bs /\ forall bs', apply_option_rule ss r bs = Ok bs' -> option_rules_checked ss rest bs'
+  end.
+Definition language_checked (ss : schemas) (lrs : list language_rules) (l : string) (bs : list builder) : Prop :=
+  builder_rules_checked ss (builder_rules_for l lrs) bs /\
+  forall bs1, apply_builder_rules ss (builder_rules_for l lrs) bs = Ok bs1 -> option_rules_checked ss (option_rules_for l lrs) bs1.
+Definition run_checked (ss : schemas) (lrs : list language_rules) (lang : string) (bs : list builder) : Prop :=
+  language_checked ss lrs all_languages bs /\
+  forall bs1, apply_language ss lrs all_languages bs = Ok bs1 -> language_checked ss lrs lang bs1.
